@@ -1166,6 +1166,13 @@ def oracle_pipeline(ctx, reads, config=None):
                     return "pipeline_group_without_model", "config %s: ten reads %s_* (%s-%s) give no transcript model" % (
                         cfg[0], gname, a, b)
                 for g in ms:
+                    if g["strand"] == "-" and g["end"] <= b and a - g["start"] in (1, 2):
+                        # known finding polya_finder_not_mirror_dual (listed for C11 and C16): find_polyt_head reports the 0-based
+                        # coordinate of the last head base and construct_monoexon_novel uses it as a 1-based model start - 2 bp before
+                        # the first aligned base behind a clipped head, 1 bp when the retained exon itself starts with T (the head
+                        # reaches one base into it); the polyA side has no counterpart (the model END never exceeds the reads)
+                        return "polyt_position_convention", "config %s: model %s %s-%s -, the exons of the reads %s_* start at %s" % (
+                            cfg[0], g["attrs"].get("transcript_id"), g["start"], g["end"], gname, a)
                     if g["start"] < a or g["end"] > b:
                         return "pipeline_model_beyond_reads", "config %s: model %s %s-%s %s, but the exons of the reads %s_* " \
                             "(after trimming the fake tail exon) cover %s-%s only" % (
